@@ -2,7 +2,7 @@
    Model: Model/Ortho.v; the QR factorisation is an oracle whose contract (A = Q R, orthonormal columns of Q)
    appears as the hypotheses qr_exact / qr_orthonormal -- validated numerically on every call the
    implementation makes (harness/props/c13.py). *)
-From TN Require Import Proofs.OrthoP Proofs.SandwichP Proofs.OrthoSweepP Alg.Inst.
+From TN Require Import Proofs.OrthoP Proofs.SandwichP Proofs.OrthoSweepP Proofs.FactorOrthoP Alg.Inst.
 
 Section C13.
 Variable K : Ops.
@@ -53,6 +53,21 @@ Theorem C13_orthogonalize : (forall m n A, qr_exact qr m n A /\ qr_orthonormal q
   lchain K 1 (firstn mu (orthogonalize K qr mu cs)) /\
   match skipn mu (orthogonalize K qr mu cs) with h :: rest => rchain K (rr h) rest | [] => False end.
 Proof. intros Hqr. exact (orthogonalize_sound K Kth qr Hqr). Qed.
+
+(* factor_orthogonalize(mu): the Tucker factor becomes Q (orthonormal columns), R is pushed into the core along the spatial
+   index (TT core or CP factor): the mode's semantic core - hence the tensor - is unchanged *)
+Theorem C13_factor_unchanged : forall (m : mode K), wf_mode m = true ->
+  (forall di s U, fac m = Some (di, s, U) -> qr_exact qr di s U) ->
+  let m' := factor_step K qr m in
+  rl (sem_mode m') = rl (sem_mode m) /\ rr (sem_mode m') = rr (sem_mode m) /\ dm (sem_mode m') = dm (sem_mode m) /\
+  forall i p q, (i < dm (sem_mode m))%nat -> sl (sem_mode m') i p q = sl (sem_mode m) i p q.
+Proof. exact (factor_step_sound K Kth qr). Qed.
+Theorem C13_factor_gauge : forall (m : mode K) di s U, fac m = Some (di, s, U) -> qr_orthonormal qr di s U ->
+  match fac (factor_step K qr m) with
+  | Some (di', k, Q) => di' = di /\ forall a b, (a < k)%nat -> (b < k)%nat -> sumn di (fun i => Q i a * Q i b) = delta a b
+  | None => False
+  end.
+Proof. exact (factor_step_gauge K qr). Qed.
 End C13.
 
 Print Assumptions C13_left_unchanged.
@@ -61,4 +76,6 @@ Print Assumptions C13_right_unchanged.
 Print Assumptions C13_right_gauge.
 Print Assumptions C13_isometry.
 Print Assumptions C13_orthogonalize.
+Print Assumptions C13_factor_unchanged.
+Print Assumptions C13_factor_gauge.
 Print Assumptions C13_norm.
